@@ -27,7 +27,9 @@ type ProcOpts struct {
 	AOFSync         string `json:"aof_sync"`
 	RestoreAOF      bool   `json:"restore_aof"`
 	RestoreSnapshot bool   `json:"restore_snapshot"`
-	Race            bool   `json:"-"`
+	// EvictionInterval in milliseconds (0 = a day: the sampler never runs by itself).
+	EvictionInterval int  `json:"eviction_interval_ms"`
+	Race             bool `json:"-"`
 }
 
 // Proc is a running verif-server subprocess.
